@@ -1006,11 +1006,17 @@ class Dilator:
                 m.got_dilation_key(self._pending_dilation_key)
             if self._pending_wormhole_versions:
                 m.got_wormhole_versions(self._pending_wormhole_versions)
-            while self._pending_inbound_dilate_messages:
-                plaintext = self._pending_inbound_dilate_messages.popleft()
-                m.received_dilation_message(plaintext)
+                self._deliver_pending_dilate_messages()
 
         return self._manager._api
+
+    def _deliver_pending_dilate_messages(self):
+        # the Manager can only handle the peer's dilation messages once it
+        # has seen the peer's versions: the mailbox server may deliver a
+        # "dilate-N" message ahead of the "version" message
+        while self._pending_inbound_dilate_messages:
+            plaintext = self._pending_inbound_dilate_messages.popleft()
+            self._manager.received_dilation_message(plaintext)
 
     # Called by Terminator after everything else (mailbox, nameplate, server
     # connection) has shut down. Expects to fire T.stoppedD() when Dilator is
@@ -1039,13 +1045,13 @@ class Dilator:
             self._pending_dilation_key = dilation_key
 
     def got_wormhole_versions(self, their_wormhole_versions):
+        self._pending_wormhole_versions = their_wormhole_versions
         if self._manager:
             self._manager.got_wormhole_versions(their_wormhole_versions)
-        else:
-            self._pending_wormhole_versions = their_wormhole_versions
+            self._deliver_pending_dilate_messages()
 
     def received_dilate(self, plaintext):
-        if not self._manager:
+        if not self._manager or self._pending_wormhole_versions is None:
             self._pending_inbound_dilate_messages.append(plaintext)
         else:
             self._manager.received_dilation_message(plaintext)
